@@ -33,6 +33,12 @@ MIN_EVALUATIONS = {"quick": 100, "thorough": 1000}
 N = {"quick": 2400, "thorough": 60000}
 
 
+def _second_system_spec(spec, rng):
+    from engines import histsim
+
+    return histsim.second_spec(spec, rng)
+
+
 def _translate(spec, rng):
     """Swarm knob: the same model far from the origin (coordinates of 1e3 .. 3e8): absolute tolerances and
     rounding then act on very different scales.  Constrained systems keep the constrained coordinates in place
@@ -96,6 +102,7 @@ def scenarios(tier, seed):
             "start_variant": rng.randrange(3), "mom_resample_coeff": 1.0,
             "step_sizes": rng.choice([None, [0.05, 0.3, 1.0, 2.5], [0.5, 0.9, 1.4], [0.01, 5.0]]) if not stress else rng.choice([None, [0.6, 1.2], [0.9, 1.6, 0.4]]),
             "region": region, "check_reversal": True, "lattice_n": rng.choice([1, 2, 3, 5, 8]),
+            "handover": _second_system_spec(spec, rng) if rng.random() < 0.15 else None,
         })
     return out
 
@@ -132,6 +139,18 @@ def lattice_history(scn, region, viols, stats):
             st.mom = system.sample_momentum(st, np.random.default_rng(scn["chain_seed"]))
         except (mici.errors.Error, ValueError):
             return
+        system2 = None
+        if scn.get("handover"):
+            # the start state arrives from ANOTHER system object of the same class (e.g. a prior-model chain handing
+            # its state to a posterior-model integrator) and carries that system's cached values
+            try:
+                with fs.paused(ctx):
+                    system2, _ = zoo.build_system(scn["handover"], hooked=True)
+                    for meth in ("h", "dh_dpos", "dh_dmom"):
+                        getattr(system2, meth)(st)
+                stats["handover_histories"] = stats.get("handover_histories", 0) + 1
+            except (mici.errors.Error, ValueError, np.linalg.LinAlgError):
+                pass
         n = scn["lattice_n"]
         fwd = [st]
         snap0 = fs.bytes_of(st)
@@ -198,7 +217,7 @@ def run_scenario(scn):
 
         stats["reversal_err_decades"] = {f"1e{int(math.floor(math.log10(e18 / 1e18)))}": 1}
     for x in ctx.violations:
-        if x["cls"] in ("input-modified", "not-reversible", "reversal-foreign-exception"):
+        if x["cls"] in ("input-modified", "not-reversible", "reversal-foreign-exception", "reversibility-failure-not-raised"):
             y = dict(x)
             y["sig"] = f"{PROP} {x['sig']}"
             viols.append(y)
